@@ -2,6 +2,7 @@
 //@ fn bits::bit_vec::AtomicBitVec::{get, set, swap, get_unchecked, set_unchecked, swap_unchecked}
 //@ harness atomic_bv_set_get props=C06,C14,C12 timeout=900
 //@ harness atomic_bv_oob props=C06,C12 timeout=900
+//@ harness atomic_bv_fill_flip props=C06,C14,C12 bounded="backend of 2 words (every length 0..=128, every content); the word loop is unwound 3 times with the unwinding assertion on" timeout=900
 //@ assume sequential semantics of the atomic operations only (one thread): interleavings are C13, not applicable; backend [AtomicUsize; 2], every length 0..=128, arbitrary storage beyond the length
 #[cfg(kani)]
 mod verif_kani_atomic_bv {
@@ -39,5 +40,25 @@ mod verif_kani_atomic_bv {
         let a = unsafe { AtomicBitVec::<[AtomicUsize; 2]>::from_raw_parts([AtomicUsize::new(w0), AtomicUsize::new(w1)], len) };
         match op { 0 => { let _ = a.get(i, Ordering::Relaxed); } 1 => { a.set(i, v, Ordering::Relaxed); } _ => { let _ = a.swap(i, v, Ordering::Relaxed); } }
         let p: *const u8 = core::ptr::null(); let _x = unsafe { *p };
+    }
+
+    /// fill / reset / flip (single thread): afterwards every bit below the length is the filled (resp. complemented) value and every
+    /// storage bit at or beyond the length is unchanged (C14), for every length and every content of a 2-word backend
+    #[kani::proof]
+    #[kani::unwind(3)]
+    fn atomic_bv_fill_flip() {
+        let w0: usize = kani::any(); let w1: usize = kani::any();
+        let len: usize = kani::any(); let v: bool = kani::any(); let op: u8 = kani::any();
+        kani::assume(len <= 128 && op < 3);
+        let mut a = unsafe { AtomicBitVec::<[AtomicUsize; 2]>::from_raw_parts([AtomicUsize::new(w0), AtomicUsize::new(w1)], len) };
+        match op { 0 => a.fill(v, Ordering::Relaxed), 1 => a.reset(Ordering::Relaxed), _ => a.flip(Ordering::Relaxed) }
+        let (after, _) = a.into_raw_parts();
+        let before = [w0, w1];
+        let p: usize = kani::any();
+        kani::assume(p < 128);
+        let ob = (before[p / 64] >> (p % 64)) & 1 != 0;
+        let nb = (after[p / 64].load(Ordering::Relaxed) >> (p % 64)) & 1 != 0;
+        if p >= len { assert!(nb == ob); } else { match op { 0 => assert!(nb == v), 1 => assert!(!nb), _ => assert!(nb != ob) } }
+        kani::cover!(len == 127 && p == 127, "vacuity probe: partial last word reachable");
     }
 }
